@@ -61,6 +61,91 @@ theorem stripNodeL_textIds : (ks : List Node) → textIdsL (stripNodeL ks) = tex
   | k :: ks => by simp [stripNodeL, textIdsL, stripNode_textIds k, stripNodeL_textIds ks]
 end
 
+/-! ## repeated attributes -/
+
+theorem dedupAttrs_keys_not_seen (attrs : List Attr) (seen : List String) :
+    ∀ a ∈ dedupAttrs attrs seen, ¬ a.key ∈ seen := by
+  induction attrs generalizing seen with
+  | nil => simp [dedupAttrs]
+  | cons b rest ih =>
+    intro a ha
+    simp only [dedupAttrs] at ha
+    split at ha
+    · exact ih seen a ha
+    · rename_i hb
+      rcases List.mem_cons.mp ha with h | h
+      · subst h; simpa using hb
+      · have := ih (b.key :: seen) a h
+        simp only [List.mem_cons, not_or] at this
+        exact this.2
+
+/-- after the pass the attribute names of an element are pairwise distinct -/
+theorem dedupAttrs_nodup (attrs : List Attr) (seen : List String) :
+    ((dedupAttrs attrs seen).map (·.key)).Nodup := by
+  induction attrs generalizing seen with
+  | nil => simp [dedupAttrs]
+  | cons b rest ih =>
+    simp only [dedupAttrs]
+    split
+    · exact ih seen
+    · simp only [List.map_cons, List.nodup_cons]
+      refine ⟨?_, ih _⟩
+      intro hmem
+      obtain ⟨a, ha, hk⟩ := List.mem_map.mp hmem
+      have := dedupAttrs_keys_not_seen rest (b.key :: seen) a ha
+      simp only [List.mem_cons, not_or] at this
+      exact this.1 hk
+
+/-- reads of the first copy (`dom.GetAttribute`) are unaffected by the pass -/
+theorem dedupAttrs_find (attrs : List Attr) (seen : List String) (k : String) (hk : ¬ k ∈ seen) :
+    (dedupAttrs attrs seen).find? (fun a => a.key == k) = attrs.find? (fun a => a.key == k) := by
+  induction attrs generalizing seen with
+  | nil => simp [dedupAttrs]
+  | cons b rest ih =>
+    simp only [dedupAttrs]
+    by_cases hb : b.key = k
+    · subst hb
+      simp [hk]
+    · by_cases hs : seen.contains b.key = true
+      · simp only [hs, if_true]
+        rw [ih seen hk]
+        simp [hb]
+      · simp only [hs]
+        simp only [Bool.false_eq_true, if_false, List.find?_cons]
+        have hbk : (b.key == k) = false := by simpa using hb
+        simp only [hbk]
+        apply ih
+        simp only [List.mem_cons, not_or]
+        exact ⟨fun h => hb h.symm, hk⟩
+
+theorem dedup_getAttr (attrs : List Attr) (k : String) : getAttr (dedupAttrs attrs []) k = getAttr attrs k := by
+  unfold getAttr
+  rw [dedupAttrs_find attrs [] k (by simp)]
+
+mutual
+def Node.uniqueKeys : Node → Prop
+  | .text _ _ => True
+  | .other _ _ => True
+  | .elem _ _ attrs ks => (attrs.map (·.key)).Nodup ∧ uniqueKeysL ks
+def uniqueKeysL : List Node → Prop
+  | [] => True
+  | k :: ks => k.uniqueKeys ∧ uniqueKeysL ks
+end
+
+mutual
+theorem dedupNode_unique : (n : Node) → (dedupNode n).uniqueKeys
+  | .text _ _ => by simp [dedupNode, Node.uniqueKeys]
+  | .other _ _ => by simp [dedupNode, Node.uniqueKeys]
+  | .elem i t attrs ks => by
+    simp only [dedupNode, Node.uniqueKeys]
+    exact ⟨dedupAttrs_nodup attrs [], dedupNodeL_unique ks⟩
+theorem dedupNodeL_unique : (ks : List Node) → uniqueKeysL (dedupNodeL ks)
+  | [] => by simp [dedupNodeL, uniqueKeysL]
+  | k :: ks => by
+    simp only [dedupNodeL, uniqueKeysL]
+    exact ⟨dedupNode_unique k, dedupNodeL_unique ks⟩
+end
+
 /-! ## absolute URLs -/
 
 /-- value is untouched-empty or the image of `f` -/
